@@ -130,9 +130,9 @@ for name, (prop, change, needs) in INFO.items():
     before = parse(os.path.join(R, ".logs", "seed%sbefore_%s.log" % (r2, prop)))
     meta = {"breaks_property": prop, "change": change, "needs_to_manifest": needs,
             "origin": "written by an independent sub-agent that saw only the property text and its own scratch worktree",
-            "confirmed_by_me": {"existing_69_tests_with_change": (after or before or {}).get("tests_with_change"),
-                                "demo_exit_with_change": (after or before or {}).get("demo_with"),
-                                "demo_exit_without_change": (after or before or {}).get("demo_without")},
+            "confirmed_by_me": {"existing_69_tests_with_change": (after or {}).get("tests_with_change") or (before or {}).get("tests_with_change"),
+                                "demo_exit_with_change": (after or {}).get("demo_with") if (after or {}).get("demo_with") is not None else (before or {}).get("demo_with"),
+                                "demo_exit_without_change": (after or {}).get("demo_without") if (after or {}).get("demo_without") is not None else (before or {}).get("demo_without")},
             "what_i_ran": "tools/seed_eval.sh: tests + demo in the scratch worktree with and without the patch; then patch applied to a scratch worktree of /repo HEAD (VERIF_REPO) and the quick checks run; undone afterwards",
             "checks_after_strengthening": (after or {}).get("checks"),
             "checks_before_strengthening": (before or {}).get("checks")}
